@@ -22,6 +22,9 @@ FUNC = (ast.FunctionDef, ast.AsyncFunctionDef)
 MAX_DEPTH = 3
 
 
+KEEP_NAMES = set()     # set by core.Program._load
+
+
 def _index(tree):
     """-> {qualname: (FunctionDef, class qualname or None)} of outer defs."""
     out = {}
@@ -504,7 +507,8 @@ class _Inliner(object):
                 own = sum(1 for x in ast.walk(fn) if (
                     isinstance(x, ast.Attribute) and x.attr == fn.name) or (
                     isinstance(x, ast.Name) and x.id == fn.name))
-                if remaining.get(fn.name, 0) - own <= 0:
+                if remaining.get(fn.name, 0) - own <= 0 and \
+                        fn.name not in KEEP_NAMES:
                     dead.add(id(fn))
         if not dead:
             return
